@@ -367,7 +367,11 @@ func translate(repo, pkgdir string, roots, fuels, params, ifaces, shapes, requir
 		if s.obj.Pkg() != nil {
 			pp = s.obj.Pkg().Path()
 		}
-		bodyOf(pp, &b, splitRecs).WriteString(t.record(s))
+		if f, ok := stage11.splitFn[s.name]; ok {
+			splitRecs[f].WriteString(t.record(s)) // --split-funcs FILE=..,RecordName
+		} else {
+			bodyOf(pp, &b, splitRecs).WriteString(t.record(s))
+		}
 	}
 	for _, s := range t.sorder {
 		emit(s)
@@ -379,7 +383,16 @@ func translate(repo, pkgdir string, roots, fuels, params, ifaces, shapes, requir
 	exports := ""
 	for _, f := range splitFiles {
 		base := strings.TrimSuffix(filepath.Base(f), ".v")
-		extraFiles[f] = header() + tail + splitRecs[f].String() + splitBody[f].String() + "\nEnd Gen.\n"
+		// a file named by --split-funcs comes after the --split files and imports them (its functions call theirs)
+		isFn := false
+		for _, v := range stage11.splitFn {
+			isFn = isFn || v == f
+		}
+		if isFn {
+			extraFiles[f] = header() + imports + tail + exports + splitRecs[f].String() + splitBody[f].String() + "\nEnd Gen.\n"
+		} else {
+			extraFiles[f] = header() + tail + splitRecs[f].String() + splitBody[f].String() + "\nEnd Gen.\n"
+		}
 		imports += "From GLGEN Require Import " + base + ".\n"
 		exports += "Export " + base + ".Gen.\n"
 	}
@@ -679,7 +692,22 @@ func (t *tr) classify() {
 						addParam(fi, t.packedParam(n, ""))
 					}
 				}
+			case *ast.ValueSpec:
+				if len(x.Values) == 0 {
+					for _, id := range x.Names {
+						if o := info.Defs[id]; o != nil {
+							if n := t.packedOf(o.Type()); n != nil {
+								addParam(fi, t.packedParam(n, ""))
+							}
+						}
+					}
+				}
 			case *ast.UnaryExpr:
+				if x.Op == token.AND {
+					if tv, ok := info.Types[x]; ok && t.ptrPacked(tv.Type) {
+						fi.pure = false
+					}
+				}
 				if x.Op == token.ARROW && t.chans {
 					fi.pure = false
 					addParam(fi, param{"chan_recv", "Z -> M (unit)"})
@@ -924,6 +952,12 @@ func (t *tr) packedOf(ty types.Type) *types.Named {
 		return nil
 	}
 	return n
+}
+
+// ptrPacked: a pointer to a --packed struct
+func (t *tr) ptrPacked(ty types.Type) bool {
+	pt, ok := types.Unalias(ty).(*types.Pointer)
+	return ok && t.packedOf(pt.Elem()) != nil
 }
 
 // packedParam: the pure parameter that builds (field "") or reads a field of a packed struct
@@ -1465,6 +1499,9 @@ func (t *tr) coqType(at ast.Node, ty types.Type) string {
 	if target := t.devirtSlice(ty); target != nil {
 		return t.coqType(at, target) // the slice value the pointer points to
 	}
+	if t.ptrPacked(ty) {
+		return "Z" // a pointer to a packed struct value: the id of a one-cell object that holds the handle (0 = nil)
+	}
 	if n := t.structOf(ty); n != nil {
 		return t.structInfoOf(at, n).name
 	}
@@ -1481,6 +1518,9 @@ func (t *tr) coqType(at ast.Node, ty types.Type) string {
 	case *types.Slice:
 		if isIntegerType(u.Elem()) || t.objectOf(u.Elem()) != nil || t.opaqueName(u.Elem()) != "" {
 			return "gslice"
+		}
+		if t.packedOf(u.Elem()) != nil || t.ptrPacked(u.Elem()) || (t.strid && isStringType(u.Elem())) {
+			return "gslice" // one cell per element: a handle, a cell-object id, a string id
 		}
 	case *types.Map:
 		_, chanElem := types.Unalias(u.Elem()).Underlying().(*types.Chan)
